@@ -5,6 +5,11 @@ P  Lean theorems over the reals (lean/MjProof/Props/C07.lean) about the executab
 T  translator regeneration + bitwise translation validation of those kernels; bitwise correspondence of the Lean model
    (Float) with mj_kinematics (+ mj_local2Global frames, fixed cameras), mj_integratePos and mj_differentiatePos of the
    tree build on generated kinematic trees.
+   mj_local2Global is modelled with both mjtSameFrame switches (position and orientation) and proved exact in every class
+   (local2Global_shortcut_exact); the generator produces bodies with explicit rotated inertial frames carrying geoms and
+   sites of all five classes (none / body / bodyrot / inertia / inertiarot, incl. the quaternion double cover), cameras and
+   fixed lights, so the bitwise tie and the oracle (frame = matrix of xquat * local quaternion in EVERY class, class
+   assignment legitimate) exercise every branch; the histogram of the classes the compiler assigned is in the evidence.
    The sparse dof chains (lean/MjProof/Model/DofChain.lean: mj_mergeChain with and without flg_skipcommon) are proved to
    hold exactly the dofs moving either / exactly one of the two bodies, and tied to the C function by exact integer
    correspondence on every generated tree.
@@ -33,14 +38,14 @@ from gen.models import unit_quat, fmt
 
 META = {
     "technique": "Lean 4 proofs over the reals about a hand-written executable model of mj_kinematics assembled from c2lean-translated quaternion kernels (induction over the topologically ordered body list with the invariant 'unit quaternion, matrix = matrix of the quaternion'; HasDerivAt for the single-joint Jacobian columns via closed forms of the kernels, ring / linear_combination with the unit-norm hypotheses) + bitwise differential correspondence of the model (Float) with the compiled engine + finite-difference property oracle on the real engine",
-    "text": "Proved for every kinematic tree given as a topologically ordered body list, every joint stack (slide / hinge / ball, or a lone free joint), mocap bodies and every configuration with unit joint / body quaternions and unit hinge axes: every body frame computed by the model of mj_kinematics1 has a unit quaternion, its matrix is mju_quat2Mat of that quaternion, and that matrix is a proper rotation (R R^T = R^T R = I, det R = 1); inertial, geom, site and fixed-camera frames of mj_local2Global are proper rotations in every mjtSameFrame case. Single-joint Jacobian columns: for a hinge, d/dtheta of the world position of any body-fixed point (computed by the model's joint step) is xaxis x (point - xanchor) with exactly the xaxis / xanchor that mj_kinematics stores (HasDerivAt, any pose before the joint with a unit quaternion, unit joint axis); for a slide it is xaxis. Sparse dof chains: for every dof parent map with parent index < dof index, the model of mj_mergeChain returns a strictly increasing chain that contains exactly the dofs moving the first or the second body and, with flg_skipcommon, exactly the dofs moving one body but not the other (bodyChain: exactly the dofs moving the body); on a dof shared by both bodies the two translational point-Jacobian columns differ by w x (pos2 - pos1), so dropping shared dofs is lossless iff the points coincide or the dof is translational. mj_differentiatePos inverts mj_integratePos: exactly for slide and hinge joints (any dt != 0); for ball and free joints under the no-wrap conditions of C24.subQuat_quatIntegrate (unit quaternion, |w| >= mjMINVAL, |dt||w| <= the mjPI literal, |sin(dt|w|/2)| >= mjMINVAL) [_partial].",
-    "note": "NOT proved, decided by the finite-difference oracle on the real engine only: the whole-tree chain rule (that every Jacobian entry point, dense or sparse, equals the derivative of the corresponding position / orientation along mj_integratePos), cvel = J qvel / mj_objectVelocity, mj_jacDot, mj_comPos (subtree_com, cdof). Constraint rows (efc_J dense and sparse, pyramidal and elliptic; equalities connect / weld / joint / tendon, joint and tendon limits, friction loss, contacts, ten_J) are decided by the same kind of oracle: central differences of efc_pos / ten_length / contact distance along mj_integratePos, contact rows against the contact frame applied to mj_jac differences, dense against sparse storage; that the call sites of the engine pass the right flg_skipcommon / points to the proved chain routines is NOT proved, only decided by this oracle. Not generated: flex constraints (mjEQ_FLEX / FLEXVERT / FLEXSTRAIN, flex contacts through mj_jacSum are only reached by calling mj_jacSum directly), tendon side sites, jacobian=auto (sparse is forced instead), sleeping. The model uses the mju_ quaternion kernels where mj_kinematics calls the textually identical mji_ inline copies (listing the mji_ copies as kernels would change the generated shape other properties' proofs rely on); a divergence of an inline copy is caught by the bitwise FK correspondence. Tracking / targeting camera modes, lights, sleeping are not modelled. Reals vs doubles: rounding is outside the proofs.",
+    "text": "Proved for every kinematic tree given as a topologically ordered body list, every joint stack (slide / hinge / ball, or a lone free joint), mocap bodies and every configuration with unit joint / body quaternions and unit hinge axes: every body frame computed by the model of mj_kinematics1 has a unit quaternion, its matrix is mju_quat2Mat of that quaternion, and that matrix is a proper rotation (R R^T = R^T R = I, det R = 1); inertial, geom, site and fixed-camera frames of mj_local2Global are proper rotations in every mjtSameFrame case, and in each of the five classes the position / orientation shortcut returns exactly xpos + xmat * pos and the matrix of xquat * quat whenever the class is legitimate for the object (null local pose / null local rotation / local pose = inertial pose / local rotation = inertial rotation). Single-joint Jacobian columns: for a hinge, d/dtheta of the world position of any body-fixed point (computed by the model's joint step) is xaxis x (point - xanchor) with exactly the xaxis / xanchor that mj_kinematics stores (HasDerivAt, any pose before the joint with a unit quaternion, unit joint axis); for a slide it is xaxis. Sparse dof chains: for every dof parent map with parent index < dof index, the model of mj_mergeChain returns a strictly increasing chain that contains exactly the dofs moving the first or the second body and, with flg_skipcommon, exactly the dofs moving one body but not the other (bodyChain: exactly the dofs moving the body); on a dof shared by both bodies the two translational point-Jacobian columns differ by w x (pos2 - pos1), so dropping shared dofs is lossless iff the points coincide or the dof is translational. mj_differentiatePos inverts mj_integratePos: exactly for slide and hinge joints (any dt != 0); for ball and free joints under the no-wrap conditions of C24.subQuat_quatIntegrate (unit quaternion, |w| >= mjMINVAL, |dt||w| <= the mjPI literal, |sin(dt|w|/2)| >= mjMINVAL) [_partial].",
+    "note": "NOT proved, decided by the finite-difference oracle on the real engine only: the whole-tree chain rule (that every Jacobian entry point, dense or sparse, equals the derivative of the corresponding position / orientation along mj_integratePos), cvel = J qvel / mj_objectVelocity, mj_jacDot, mj_comPos (subtree_com, cdof). Constraint rows (efc_J dense and sparse, pyramidal and elliptic; equalities connect / weld / joint / tendon, joint and tendon limits, friction loss, contacts, ten_J) are decided by the same kind of oracle: central differences of efc_pos / ten_length / contact distance along mj_integratePos, contact rows against the contact frame applied to mj_jac differences, dense against sparse storage; that the call sites of the engine pass the right flg_skipcommon / points to the proved chain routines is NOT proved, only decided by this oracle. Not generated: flex constraints (mjEQ_FLEX / FLEXVERT / FLEXSTRAIN, flex contacts through mj_jacSum are only reached by calling mj_jacSum directly), tendon side sites, jacobian=auto (sparse is forced instead), sleeping. The model uses the mju_ quaternion kernels where mj_kinematics calls the textually identical mji_ inline copies (listing the mji_ copies as kernels would change the generated shape other properties' proofs rely on); a divergence of an inline copy is caught by the bitwise FK correspondence. That the compiler assigns only legitimate sameframe classes is decided by the oracle (class validity is re-derived from the model arrays), not proved. Tracking / targeting camera and light modes, sleeping are not modelled (fixed lights are). Reals vs doubles: rounding is outside the proofs.",
 }
 
 P = "MjProof.C07."
 THEOREMS = [P + t for t in (
     "quat2Mat_proper", "mulQuat_normSq", "normalize4_unit", "axisAngle2Quat_unit",
-    "fk_frames_proper", "local2Global_proper",
+    "fk_frames_proper", "local2Global_proper", "local2Global_shortcut_exact",
     "rot_eq_mat", "cross_mat", "uvec_hasDerivAt", "hinge_column_is_derivative", "slide_column_is_derivative",
     "differentiate_integrate_slide", "differentiate_integrate_hinge",
     "differentiate_integrate_ball_partial", "differentiate_integrate_free_partial",
@@ -49,7 +54,7 @@ THEOREMS = [P + t for t in (
 )]
 
 KERNELS = ["mju_quat2Mat", "mju_mulQuat", "mju_rotVecQuat", "mju_axisAngle2Quat", "mju_normalize4", "mju_mulMatVec3",
-           "mju_quatIntegrate", "mju_subQuat"]
+           "mju_quatIntegrate", "mju_subQuat", "mju_normalize3"]
 
 fb = kernelval.fbits
 frombits = kernelval.frombits
@@ -107,6 +112,103 @@ def rot_fd(Rp, Rm, eps):
     return [(A[7] - A[5]) / (4 * eps), (A[2] - A[6]) / (4 * eps), (A[3] - A[1]) / (4 * eps)]
 
 
+
+# ------------------------------------------------------------------------------------------------ sameframe classes
+SF_NAME = {0: "none", 1: "body", 2: "inertia", 3: "bodyrot", 4: "inertiarot"}
+
+
+def add_frame_classes(rng, t, hist, force=False):
+    """mj_local2Global takes a shortcut per mjtSameFrame class (position and orientation switch); the compiler assigns the
+    class by comparing the local pose of a geom / site with the null pose and with the body's inertial frame.  The c06
+    generator only ever produces none / body / bodyrot (and inertia for the single geom of a body with inferred inertia), so
+    bodies with an explicit, rotated inertial frame get geoms and sites that coincide with that frame (inertia), share only
+    its orientation (inertiarot, also through the quaternion double cover and an unnormalised copy), sit at the inertial
+    position with another orientation (none), plus null-pose and rotation-free ones; lights are attached to random bodies.
+    The classes actually assigned by the compiler are read back from the model and recorded by the caller."""
+    L = t.lines.append
+    hmax, bodies = 0, {}
+    order = []
+    for l in t.lines:
+        w = l.split()
+        if w[0] in ("body", "joint", "freejoint", "geom", "site", "camera", "tendon", "actuator", "equality", "light"):
+            hmax = max(hmax, int(w[1]))
+        if w[0] == "body":
+            bodies[int(w[1])] = {"explicit": False, "ipos": ["0", "0", "0"], "iquat": None, "geoms": []}
+            order.append(int(w[1]))
+        elif w[0] == "geom" and int(w[2]) in bodies:
+            bodies[int(w[2])]["geoms"].append(int(w[1]))
+        elif w[0] == "set" and int(w[1]) in bodies:
+            b = bodies[int(w[1])]
+            if w[2] == "explicitinertial":
+                b["explicit"] = w[3] == "1"
+            elif w[2] in ("ipos", "iquat"):
+                b[w[2]] = w[3:]
+    h = [hmax]
+
+    def newh():
+        h[0] += 1
+        return h[0]
+
+    def bump(k):
+        hist[k] = hist.get(k, 0) + 1
+
+    def obj(kind, bh, pos, quat, tag):
+        oh = newh()
+        L("%s %d %d" % (kind, oh, bh))
+        name = "%s%d" % ("fg" if kind == "geom" else "fs", oh)
+        L("name %d %s" % (oh, name))
+        if kind == "geom":
+            L("set %d type %d" % (oh, E("mjGEOM_BOX")))
+            L("set %d size 0.03 0.05 0.07" % oh)
+            L("set %d contype 0" % oh)
+            L("set %d conaffinity 0" % oh)
+            t.geoms.append({"name": name, "body": None})
+        else:
+            t.sites.append({"name": name, "body": order.index(bh) + 1})
+        if pos is not None:
+            L("set %d pos %s" % (oh, " ".join(pos)))
+        if quat is not None:
+            L("set %d quat %s" % (oh, " ".join(quat)))
+        bump("requested:%s:%s" % (kind, tag))
+    rp = lambda: [repr(rng.uniform(-0.3, 0.3)) for _ in range(3)]
+    forced = False
+    for bh in order:
+        b = bodies[bh]
+        if not b["explicit"]:
+            continue
+        all_ = force and not forced          # one body of a forced tree gets an object of every class (coverage by construction)
+        if b["iquat"] is None and (all_ or rng.random() < 0.5):
+            b["iquat"] = [repr(x) for x in unit_quat(rng)]
+            L("set %d iquat %s" % (bh, " ".join(b["iquat"])))
+        iq = b["iquat"]
+        if iq is None or (not all_ and rng.random() < 0.25):
+            continue
+        forced = forced or all_
+        neg = [repr(-float(x)) for x in iq]
+        scaled = [repr(2.0 * float(x)) for x in iq]
+        for kind in ("geom", "site"):
+            if all_ or rng.random() < 0.6:
+                obj(kind, bh, b["ipos"], rng.choice((iq, iq, neg, scaled)), "inertia")
+            if all_ or rng.random() < 0.8:
+                obj(kind, bh, rp(), rng.choice((iq, iq, neg, scaled)), "inertiarot")
+            if all_ or rng.random() < 0.3:
+                obj(kind, bh, b["ipos"], [repr(x) for x in unit_quat(rng)], "none(inertial position)")
+            if all_ or rng.random() < 0.2:
+                obj(kind, bh, None, None, "body")
+            if all_ or rng.random() < 0.2:
+                obj(kind, bh, rp(), None, "bodyrot")
+    # lights (fixed mode): position through the NONE case of the position switch, direction through the body quaternion
+    t.nlight = 0
+    for bh in [0] + order:
+        if rng.random() < 0.25:
+            lh = newh()
+            L("light %d %d" % (lh, bh))
+            L("name %d lt%d" % (lh, lh))
+            L("set %d pos %s" % (lh, " ".join(rp())))
+            if rng.random() < 0.8:
+                L("set %d dir %s" % (lh, " ".join(repr(x) for x in G.unit_vec(rng))))
+            t.nlight += 1
+    return forced
 
 # ------------------------------------------------------------------------------------------------ constraint scenes
 # The property quantifies over "constraint rows, sparse or dense" as well: the generated trees are completed with every
@@ -519,6 +621,9 @@ def judge_frames(fk, info, dev, fails):
                 1e-13, "ximat differs from the matrix of xquat * body_iquat")
         else:
             chk("ximat=xmat(sameframe)", maxdiff(ximat[9 * b:9 * b + 9], xmat[9 * b:9 * b + 9]), 0.0, "ximat != xmat for a sameframe body")
+        chk("ximat=quat2Mat(xquat*iquat):" + SF_NAME.get(bsf[b], str(bsf[b])),
+            maxdiff(ximat[9 * b:9 * b + 9], qmat(qmul(xquat[4 * b:4 * b + 4], biq[4 * b:4 * b + 4]))), 2e-5,
+            "ximat of a body_sameframe=%s body is not the matrix of xquat * body_iquat" % SF_NAME.get(bsf[b], bsf[b]))
     bip = F(info, "body_ipos")
     for b in range(1, nb):
         exp = [xpos[3 * b + r] + mvec(xmat[9 * b:9 * b + 9], bip[3 * b:3 * b + 3])[r] for r in range(3)]
@@ -542,6 +647,28 @@ def judge_frames(fk, info, dev, fails):
             else:
                 exp, tol = ximat[9 * b:9 * b + 9], 0.0
             chk(pre + "_xmat=body*local", maxdiff(M[9 * k:9 * k + 9], exp), tol, pre + "_xmat differs from body orientation * local orientation")
+            # the property itself, whatever shortcut the class selects: the frame is the matrix of xquat * local quaternion
+            # (the compiler equates poses up to 1e-6 per component, hence the tolerance) ...
+            chk(pre + "_xmat=quat2Mat(xquat*quat):" + SF_NAME.get(s, str(s)), maxdiff(M[9 * k:9 * k + 9], qmat(qmul(xquat[4 * b:4 * b + 4], lq[4 * k:4 * k + 4]))),
+                2e-5, "%s_xmat of a sameframe=%s object is not the matrix of xquat * %s_quat" % (pre, SF_NAME.get(s, s), pre))
+            # ... and a proper class assignment: a shortcut class is only legitimate when the local pose matches its reference
+            if sf:
+                lp, ip = Pl[3 * k:3 * k + 3], bip[3 * b:3 * b + 3]
+                lqk, iq = lq[4 * k:4 * k + 4], biq[4 * b:4 * b + 4]
+                qnull = min(maxdiff(lqk, [1.0, 0, 0, 0]), maxdiff(lqk, [-1.0, 0, 0, 0]))
+                qin = min(maxdiff(lqk, iq), maxdiff(lqk, [-x for x in iq]))
+                need = {0: 0.0, 1: max(qnull, maxdiff(lp, [0.0] * 3)), 3: qnull, 2: max(qin, maxdiff(lp, ip)), 4: qin}.get(s, float("inf"))
+                chk(pre + "_sameframe-class-valid", need, 1e-6, "%s_sameframe=%s but the local pose does not coincide with the reference frame of that class"
+                    % (pre, SF_NAME.get(s, s)))
+    # fixed lights: position = body frame o local position, direction = body rotation applied to the local direction
+    if "light_xpos" in fk and "light_bodyid" in info:
+        lb, lp_, ld = I(info, "light_bodyid"), F(info, "light_pos"), F(info, "light_dir")
+        lx, lxd = F(fk, "light_xpos"), F(fk, "light_xdir")
+        for k, b in enumerate(lb):
+            R = xmat[9 * b:9 * b + 9]
+            exp = [xpos[3 * b + r] + mvec(R, lp_[3 * k:3 * k + 3])[r] for r in range(3)]
+            chk("light_xpos=xpos+xmat*pos", maxdiff(lx[3 * k:3 * k + 3], exp), 1e-12 * sc, "light_xpos differs from xpos + xmat * light_pos")
+            chk("light_xdir=xmat*dir", maxdiff(lxd[3 * k:3 * k + 3], mvec(R, ld[3 * k:3 * k + 3])), 1e-13, "light_xdir differs from xmat * light_dir")
     return sc
 
 
@@ -1142,6 +1269,12 @@ def run_stream(ctx, impl, drv, trees, nstates, dev, stats, maxfd, max_report=6):
             info = None
         elif k == "info" and o.startswith("info"):
             info = parse_groups(o.split()[1:])
+            for pre in ("body", "geom", "site"):
+                for v in I(info, pre + "_sameframe")[(1 if pre == "body" else 0):]:
+                    kk = "sameframe:%s:%s" % (pre, SF_NAME.get(v, str(v)))
+                    stats[kk] = stats.get(kk, 0) + 1
+            stats["sameframe:camera:none"] = stats.get("sameframe:camera:none", 0) + len(I(info, "cam_bodyid"))
+            stats["sameframe:light:none"] = stats.get("sameframe:light:none", 0) + len(I(info, "light_bodyid"))
         if info is None:
             continue
         if k == "rec" and mt.get("frames") and " ->" in o:
@@ -1211,6 +1344,7 @@ def run_stream(ctx, impl, drv, trees, nstates, dev, stats, maxfd, max_report=6):
 def gen_trees(ctx, n, maxbody, maxdof, cons=0.75, chist=None):
     trees, hist = [], {}
     chist = {} if chist is None else chist
+    nforced = 0
     for k in range(n):
         r = ctx.rng.random()
         mb = maxbody if r < 0.6 else max(2, maxbody // 3)
@@ -1221,6 +1355,7 @@ def gen_trees(ctx, n, maxbody, maxdof, cons=0.75, chist=None):
             mb = max(mb, 4)
             hist["profile:single-root-branching"] = hist.get("profile:single-root-branching", 0) + 1
         t = G.gen_tree(ctx.rng, maxbody=mb, maxdof=maxdof, frames=True, tendons=False, p=prof)
+        nforced += 1 if add_frame_classes(ctx.rng, t, chist, force=nforced < 2) else 0
         if ctx.rng.random() < cons:
             add_constraints(ctx.rng, t, chist)
         trees.append(t)
@@ -1238,7 +1373,9 @@ def gen_trees(ctx, n, maxbody, maxdof, cons=0.75, chist=None):
 def run(ctx):
     ctx.rule = ("seeded random kinematic trees (chains and wide branching, free/ball/slide/hinge joints, up to 4 joints per body, "
                 "qpos0 offsets, mocap bodies, explicit and geom-derived inertial frames, geoms / sites / cameras with all sameframe "
-                "cases; 75% of the trees completed with equalities (connect / weld body+site, joint, tendon; body pairs chosen by "
+                "cases: bodies with explicit rotated inertial frames carry geoms / sites coinciding with that frame, sharing only its "
+                "rotation (also as -q and 2q), at the inertial position with another rotation, null-pose and rotation-free; fixed "
+                "lights; 75% of the trees completed with equalities (connect / weld body+site, joint, tendon; body pairs chosen by "
                 "chain relation: shared moving ancestor, ancestor-descendant, different trees, one side fixed), joint / tendon "
                 "limits, friction loss, fixed / spatial tendons, colliding primitive geoms of every condim and a plane; 30% of the "
                 "trees are single-rooted with branching) x random configurations (unit and non-unit quaternions for the FK tie, unit for the finite differences); a "
@@ -1278,6 +1415,11 @@ def run(ctx):
     for f in found:
         ctx.oracle_failure(f["key"], f["what"], f["replay"])
     ctx.extra["oracle"] = {k: v for k, v in stats.items()}
+    ctx.extra["sameframe_class_histogram_compiled"] = {k[len("sameframe:"):]: v for k, v in sorted(stats.items()) if k.startswith("sameframe:")}
+    missing = [pre + ":" + c for pre in ("geom", "site") for c in SF_NAME.values() if not stats.get("sameframe:%s:%s" % (pre, c))]
+    ctx.oblige("the compiled models contain geoms and sites of all five mjtSameFrame classes (both switches of mj_local2Global "
+               "are exercised in every branch; the generator places one object of every class by construction)", "coverage",
+               not missing, "missing: %s" % missing)
     ctx.extra["oracle_failures"] = nfail
     ctx.extra["oracle_max_deviation_over_allowed"] = {k: float("%.3g" % v) for k, v in sorted(dev.m.items())}
     ctx.extra["correspondence_records"] = nrec
